@@ -110,6 +110,11 @@ func (e *Engine) intercept(fr *frame, fn *ssa.Function, args []Value) (Value, bo
 		return nil, false
 	}
 	tb := e.tb
+	if strings.HasPrefix(name, "net/") || strings.HasPrefix(name, "(net/") || strings.HasPrefix(name, "(*net/") || name == "io.ReadAll" || name == "io.Copy" {
+		if r, ok := e.httpIntercept(fr, fn, name, args); ok {
+			return r, true
+		}
+	}
 	switch name {
 	// ---------------- sync ----------------
 	case "(*sync.Mutex).Lock", "(*sync.RWMutex).Lock":
